@@ -397,6 +397,17 @@ theorem uniqueTypeNames_of_checked (T : TsDoc) (hb : builtinTypeNamesDistinct T 
     uniqueTypeNames T = true :=
   uniqueTypeNames_of_accepted h hb
 
+/-- the hypotheses of `uniqueTypeNames_of_checked` hold, non-vacuously, of a document whose scalars ARE at built-in
+    positions (as the CLI appends them) next to user definitions -/
+example :
+    let T : TsDoc := [
+      .typeDef { kind := .object, name := "Query", fields := [{ name := "a", ty := .named "Int" {} }] },
+      .typeDef { kind := .input, name := "In", inputs := [{ name := "s", ty := .named "String" {} }] },
+      .typeDef { kind := .scalar, name := "Int", namePos := { builtin := true } },
+      .typeDef { kind := .scalar, name := "String", namePos := { builtin := true } }]
+    builtinTypeNamesDistinct T = true ∧ checkSchema T = [] ∧ uniqueTypeNames T = true ∧
+      builtinNames (typeIdents T) = ["Int", "String"] := by decide
+
 /-- `type A { x: Int }  input A { y: Int }  type Query { a: A }` (with the built-in scalars) -/
 def dupKindDoc : TsDoc := builtinScalars ++ [
   .typeDef { kind := .object, name := "A", fields := [{ name := "x", ty := .named "Int" {} }] },
